@@ -167,10 +167,9 @@ func NewServer(c *cache.Cache, opts ...Option) (*Server, error) {
 // v should be n itself or the container of n (e.g. a ctree.Leaf) depending
 // on the caller.
 func UpdateNotification(m *match.Match, v interface{}, n *pb.Notification, prefix []string) {
-	var updated map[match.Client]struct{}
-	if len(n.Update)+len(n.Delete) > 1 {
-		updated = make(map[match.Client]struct{})
-	}
+	// Always track the clients already invoked: a client holding several matching
+	// paths must be offered even a single update only once.
+	updated := make(map[match.Client]struct{})
 	for _, u := range n.Update {
 		m.UpdateOnce(v, append(prefix, path.ToStrings(u.Path, false)...), updated)
 	}
